@@ -936,7 +936,7 @@ Lemma rv_rev {A} (l : list A) : rv l = rev l.
 Proof. unfold rv. symmetry. apply rev_alt. Qed.
 Lemma parse_header_line_c_eq line : parse_header_line_c line = parse_header_line line.
 Proof.
-  unfold parse_header_line_c, parse_header_line, trim_space, trim_right.
+  unfold parse_header_line_c, parse_header_line, trim_space_go, trim_right_go.
   destruct (index_byte ":"%char line); [|reflexivity]. rewrite !rv_rev. reflexivity.
 Qed.
 Lemma parse_header_line_cases l : parse_header_line l = Err \/ exists h, parse_header_line l = Ok h.
@@ -1426,7 +1426,7 @@ Definition no_eol (s : bytes) : Prop := ~ In CR s /\ ~ In LF s.
 Definition wf_header (h : raw_header) : Prop :=
   no_eol (rh_name h) /\ ~ In ":"%char (rh_name h) /\
   Forall is_pad (rh_lpad h) /\ Forall is_pad (rh_rpad h) /\
-  no_eol (rh_value h) /\ trim_space (rh_value h) = rh_value h.
+  no_eol (rh_value h) /\ trim_space_go (rh_value h) = rh_value h.   (* no surrounding Unicode white space *)
 Definition wf_msg (m : raw_msg) : Prop :=
   Forall (fun c => is_space c = true) (rm_lead m) /\
   (exists c r, rm_line m = c :: r /\ is_space c = false) /\ no_eol (rm_line m) /\
@@ -1488,20 +1488,14 @@ Proof.
   unfold trim_space in H. rewrite HT in H. exact H.
 Qed.
 
+(* strings.TrimSpace (Unicode white space): ASCII padding around a value that has no surrounding
+   Unicode white space is removed, the value is kept (BytesLemmas.trim_space_go_pads) *)
 Lemma ex_trim_space_pads lpad v rpad :
-  Forall is_pad lpad -> Forall is_pad rpad -> trim_space v = v ->
-  trim_space (lpad ++ v ++ rpad) = v.
+  Forall is_pad lpad -> Forall is_pad rpad -> trim_space_go v = v ->
+  trim_space_go (lpad ++ v ++ rpad) = v.
 Proof.
   intros Hl Hr Hv. apply ex_pads_blank in Hl. apply ex_pads_blank in Hr.
-  destruct (ex_trim_space_fix v Hv) as [HF HR].
-  unfold trim_space. rewrite ex_trim_left_blank by exact Hl.
-  destruct HF as [HF|[c [r [HF Hc]]]].
-  - subst v. cbn [app]. rewrite ex_trim_left_all_blank by exact Hr. reflexivity.
-  - assert (HT : trim_left (v ++ rpad) = v ++ rpad).
-    { subst v. cbn [app]. apply ex_trim_left_nonblank. exact Hc. }
-    rewrite HT. unfold trim_right. rewrite rev_app_distr.
-    rewrite ex_trim_left_blank by (apply Forall_rev; exact Hr).
-    exact HR.
+  apply trim_space_go_pads; assumption.
 Qed.
 
 (* ---- lines ---- *)
